@@ -185,7 +185,7 @@ theorem storedCols_cons (val : Bytes → Int → M GoVal) (tbl : List (Datum × 
         storedCols val tbl cs vs (k - 1) >>= fun rest => pure ((c.name, x) :: rest)) := by
   cases k <;> cases v <;> rfl
 
-/-- on a row without compressed / out-of-line values "what was stored" is what C03's view reads from the row's bytes -/
+/-- on a row without out-of-line values (inline-compressed ones included since fixes/rows/09) "what was stored" is what C03's view reads from the row's bytes -/
 theorem storedCols_inline (val : Bytes → Int → M GoVal) (tbl : List (Datum × Bytes)) : ∀ (cols : List Col)
     (vals : List (Option Datum)) (k : Nat), vals.all inlineDatum = true → storedCols val tbl cols vals k = expectedCols val cols vals k
   | [], _, _, _ => by simp [storedCols, expectedCols]
